@@ -36,6 +36,24 @@ pub use stats::{ColumnStatSummary, StatSummary};
 /// Verification hooks (compiled only with `--cfg pdb_verif`).
 #[cfg(pdb_verif)]
 pub mod verif {
+	/// Callback invoked at named hand-over points of the read and write paths.
+	pub type YieldHook = std::sync::Arc<dyn Fn(&'static str) + Send + Sync>;
+
+	static YIELD_HOOK: std::sync::RwLock<Option<YieldHook>> = std::sync::RwLock::new(None);
+
+	/// Install (or remove) the yield-point callback. Nothing is observable while it is unset.
+	pub fn set_yield_hook(hook: Option<YieldHook>) {
+		*YIELD_HOOK.write().unwrap_or_else(|e| e.into_inner()) = hook;
+	}
+
+	/// Named point at which a test scheduler may delay or park the calling thread.
+	pub fn yield_point(name: &'static str) {
+		let hook = YIELD_HOOK.read().unwrap_or_else(|e| e.into_inner()).clone();
+		if let Some(hook) = hook {
+			hook(name)
+		}
+	}
+
 	/// Both index page searches on a synthetic 64-entry page.
 	pub fn find_entries(
 		index_bits: u8,
